@@ -917,6 +917,8 @@ pub fn migrate(seed: u64, out: &mut Outcome) {
     // keep-alives make the client "keep sending from the new address" even when it has nothing to write
     let cch = sim.connect(ccfg);
     w.ch[CLIENT] = Some(cch);
+    // C12 in-flight ledger on every snapshot (`in-flight-bytes-unaccounted`, module `inflight`)
+    let infl = crate::inflight::install(&mut sim);
     let n_moves = if migration_enabled { rng.below(3) } else { rng.below(2) };
     let mut move_steps: Vec<u64> = (0..n_moves).map(|_| rng.range(30, 400)).collect();
     move_steps.sort();
@@ -980,6 +982,8 @@ pub fn migrate(seed: u64, out: &mut Outcome) {
         }
         // ---- oracles evaluated continuously
         if let Some(sch) = w.ch[SERVER] {
+            infl.borrow_mut().check(sim, CLIENT, cch);
+            infl.borrow_mut().check(sim, SERVER, sch);
             let ss = sim.snap(SERVER, sch);
             let cs = sim.snap(CLIENT, cch);
             let caddr = sim.nodes[CLIENT].addr;
@@ -1052,6 +1056,10 @@ pub fn migrate(seed: u64, out: &mut Outcome) {
     out.count("address-changes", moved);
     out.count("replays-from-third-addresses", replays);
     out.count(if migration_enabled { "migration-enabled" } else { "migration-disabled" }, 1);
+    sim.tx_tap = None;
+    for (k, v) in infl.borrow().counters() {
+        out.count(k, v);
+    }
     if out.samples.len() < 3 {
         out.samples.push(format!("seed {seed}: migration_enabled {migration_enabled}, moves {moved}, replays {replays}, client addresses {:?}, end {end:?} at {} ms", genuine_client_addrs.borrow(), sim.now / 1_000_000));
     }
